@@ -263,6 +263,8 @@ def part_outcomes(ctx, tmp):
         txt, how = mutate_json(JSON_ABI, rnd)
         items.append({"id": f"json{i}", "files": {"iabi.json": txt, "user.vy": JSON_USER}, "target": "user.vy", "how": "json-abi:" + how,
                       "base": "JSON_ABI"})
+    from vlib import c20_pyconstructs
+    items += c20_pyconstructs.items()
     lay_src = CORPUS["with_layout"]["files"]["lay.vy"]
     for i in range(40 if ctx.tier == "quick" else 400):
         txt, how = mutate_json(CORPUS["with_layout"]["layout"], rnd)
